@@ -52,15 +52,24 @@ def _bulk(ctx, index):
     ctx.need(apps, "the path-parameter declaration vanished from openapi_bulk")
     for a in apps:
         x = a.args[0] if a.args else None
+        # the per-parameter scope: the lambda applied to one path segment, or (loop spelling) the block of the
+        # `if segment.startswith(":")` arm the declaration sits in
         lam = f.mod.parents.get(a)
         while lam is not None and not isinstance(lam, ast.Lambda):
             lam = f.mod.parents.get(lam)
-        pvar = lam.args.args[0].arg if isinstance(lam, ast.Lambda) and lam.args.args else None
+        scope_nodes = list(ast.walk(lam.body)) if isinstance(lam, ast.Lambda) else []
+        if not isinstance(lam, ast.Lambda):
+            blk = f.mod.parents.get(a)
+            while blk is not None and not isinstance(blk, (ast.If, ast.For)):
+                blk = f.mod.parents.get(blk)
+            if blk is not None:
+                scope_nodes = [x for st in blk.body for x in ast.walk(st)]
         placeholder = [
             c
-            for c in (ast.walk(lam.body) if isinstance(lam, ast.Lambda) else [])
+            for c in scope_nodes
             if isinstance(c, ast.Call) and isinstance(c.func, ast.Attribute) and c.func.attr == "format" and isinstance(c.func.value, ast.Constant) and c.func.value.value == "{{{}}}"
         ]
+        pvar = lam.args.args[0].arg if isinstance(lam, ast.Lambda) and lam.args.args else (norm(placeholder[0].args[0]) if placeholder and placeholder[0].args else None)
         if isinstance(x, ast.Dict):
             d = {k.value: v for k, v in zip(x.keys, x.values) if isinstance(k, ast.Constant)}
             ok = (
@@ -173,8 +182,51 @@ def run(ctx):
                 for k, v in zip(n.keys, n.values):
                     if isinstance(k, ast.Constant) and k.value == "$ref":
                         uses.append((v, n))
+        # a private helper that builds the reference object: `return {"$ref": TEMPLATE.format(k=<param>)}`; every call
+        # of it in the emitter is a use, with the argument substituted for the parameter
+        import copy
+
+        from ..core import RefGraph
+        from ..region import Region
+
+        reg = Region(index, RefGraph(index), f)
+        for h in reg.funcs[1:]:
+            rets = [x for x in h.node.body if isinstance(x, ast.Return)]
+            if len(rets) != 1 or not isinstance(rets[0].value, ast.Dict):
+                continue
+            refv = next((v_ for k_, v_ in zip(rets[0].value.keys, rets[0].value.values) if isinstance(k_, ast.Constant) and k_.value == "$ref"), None)
+            if refv is None:
+                continue
+            for caller, call in reg.callsites.get(h.qual, ()):
+                if caller is not f:
+                    continue
+                bound = {p_: a for p_, a in zip(h.params, call.args)}
+                bound.update({k_.arg: k_.value for k_ in call.keywords if k_.arg})
+
+                class Sub(ast.NodeTransformer):
+                    def visit_Name(self, x):
+                        return copy.deepcopy(bound[x.id]) if x.id in bound else x
+
+                val = Sub().visit(copy.deepcopy(refv))
+                # "...{name}".format(name="ServerError") -> the constant it denotes
+                tpl_, args_ = _template(val) if not isinstance(val, ast.Constant) else (None, None)
+                if (
+                    isinstance(val, ast.Call)
+                    and isinstance(val.func, ast.Attribute)
+                    and val.func.attr == "format"
+                    and isinstance(val.func.value, ast.Constant)
+                    and all(isinstance(k_.value, ast.Constant) for k_ in val.keywords)
+                    and not val.args
+                ):
+                    try:
+                        val = ast.Constant(value=val.func.value.value.format(**{k_.arg: k_.value.value for k_ in val.keywords}))
+                    except (KeyError, IndexError, ValueError):
+                        pass
+                ast.copy_location(val, call)
+                ast.fix_missing_locations(val)
+                uses.append((val, call))
         ctx.count("ref_uses", len(uses))
-        ctx.floor("$ref uses in the OpenAPI emitter", len(uses), 5)
+        ctx.floor("$ref uses in the OpenAPI emitter", len(uses), 3)
         stores = []  # (section, key template, key args, stmt)
         for n in iter_own(f.node):
             if isinstance(n, ast.Assign) and isinstance(n.targets[0], ast.Subscript):
@@ -443,7 +495,7 @@ def run(ctx):
             index.func(r)
         reach = graph.reachable(roots)
         ctx.count("state_functions", len(reach))
-        ctx.need(len(reach) >= 40, "the OpenAPI pipeline shrank to {} functions: call graph no longer resolves it".format(len(reach)))
+        ctx.need(len(reach) >= 20, "the OpenAPI pipeline shrank to {} functions: call graph no longer resolves it".format(len(reach)))
         c10._modstate(ctx.view(lambda w: getattr(w, "qual", None) in reach, rule="C16.state", prefix="state_"))
 
     ctx.section(_sec_state)
